@@ -35,11 +35,17 @@ struct helem {
     uint64_t pad2;
 };
 
-struct mheap { int n; struct helem *e[MAXN]; int since_clear; };
+/* every heap has a private pointer of its own that tells the comparison function which way round it orders (a
+ * max-heap or a min-heap over the same priorities); the pointer belongs to the heap OBJECT and moves with it on swap */
+struct hord { int dir; };
+static struct hord hords[2];
+struct mheap { int n; struct helem *e[MAXN]; int since_clear; struct hord *ord; };
+#define EFF(h, e) (mh[h].ord->dir * (e)->prio)
 
 static struct cstl_heap hp[2];
 static struct mheap mh[2];
 static int nh, prios, maxn, clear_frees, next_id, walk_epoch;
+static struct helem *recycle[4]; static int nrecycle;
 static unsigned maxreach;
 
 static const char *prop_of(int h) { return (mh[h].since_clear >= 0 && mh[h].since_clear <= 3) ? "C15" : "C07"; }
@@ -59,9 +65,9 @@ static const char *ctx_of(int h)
 
 static int cmp_prio(const void *a, const void *b, void *p)
 {
-    const struct helem *x = a, *y = b;
-    (void)p;
-    return sim_cmp((x->prio > y->prio) - (x->prio < y->prio));
+    const struct helem *x = a, *y = b; const struct hord *o = p;
+    int d = o ? o->dir : 1;
+    return sim_cmp(d * ((x->prio > y->prio) - (x->prio < y->prio)));
 }
 
 static int hkind[2], cur_h;     /* node member each heap is declared over; heap being audited */
@@ -90,7 +96,7 @@ static void audit_node(int h, const struct cstl_bintree_node *n, const struct cs
         VIOL(h, "complete", "heap %d: a node sits at level-order slot %llu but the heap has %d elements (tree not complete)",
              h, (unsigned long long)pos, mh[h].n);
     if (n->p != parent) VIOL(h, "parent_link", "heap %d: parent link of element %d is wrong", h, e->id);
-    if (parent && elem_of(parent)->prio < e->prio)
+    if (parent && EFF(h, elem_of(parent)) < EFF(h, e))
         VIOL(h, "heap_order", "heap %d: element %d (prio %d) is above its parent (prio %d)", h, e->id, e->prio, elem_of(parent)->prio);
     audit_node(h, n->l, n, pos * 2, depth + 1);
     audit_node(h, n->r, n, pos * 2 + 1, depth + 1);
@@ -112,12 +118,12 @@ static void audit_heap(int h)
     if (g_aborted) VIOL(h, "abort", "get aborted");
     if (m->n == 0) { if (g != NULL) VIOL(h, "get_empty", "heap %d: get on an empty heap returned non-NULL", h); }
     else {
-        int mx = m->e[0]->prio;
+        int mx = EFF(h, m->e[0]);
         const struct helem *ge = g;
-        for (i = 1; i < m->n; i++) if (m->e[i]->prio > mx) mx = m->e[i]->prio;
+        for (i = 1; i < m->n; i++) if (EFF(h, m->e[i]) > mx) mx = EFF(h, m->e[i]);
         for (i = 0; i < m->n; i++) if (m->e[i] == ge) break;
         if (i == m->n) VIOL(h, "get_foreign", "heap %d: get returned a pointer that is not a held element", h);
-        if (ge->prio != mx) VIOL(h, "get_max", "heap %d: get returned priority %d, maximum is %d", h, ge->prio, mx);
+        if (EFF(h, ge) != mx) VIOL(h, "get_max", "heap %d: get returned priority %d, the %s is %d", h, ge->prio, m->ord->dir > 0 ? "maximum" : "minimum (this heap orders the other way round)", mx * m->ord->dir);
     }
     sh = fnv1a(sh, (uint64_t)m->n);
     if (m->n <= 16) {
@@ -222,11 +228,13 @@ static void h_exec(const plan_t *p)
     prios = (int)p->cfg[CF_PRIOS]; if (prios < 1) prios = 1;
     maxn = (int)p->cfg[CF_MAXN]; if (maxn < 1) maxn = 4; if (maxn > MAXN - 8) maxn = MAXN - 8;
     clear_frees = (int)(p->cfg[CF_CLEARFREES] & 1);
-    next_id = 0; maxreach = 0;
+    next_id = 0; maxreach = 0; nrecycle = 0;
     memset(hp, (int)(unsigned char)p->cfg[CF_JUNK], sizeof hp);
     for (i = 0; i < 2; i++) {
         hkind[i] = (int)(p->cfg[CF_CLEARFREES] >> (4 + i) & 1);
-        cstl_heap_init(&hp[i], cmp_prio, NULL, hoff(hkind[i]));
+        hords[i].dir = (p->cfg[CF_CLEARFREES] >> (8 + i) & 1) ? -1 : 1;
+        mh[i].ord = &hords[i];
+        cstl_heap_init(&hp[i], cmp_prio, &hords[i], hoff(hkind[i]));
         mh[i].n = 0; mh[i].since_clear = -1;
     }
 
@@ -241,13 +249,18 @@ static void h_exec(const plan_t *p)
             g_cur_prop = "C07";
             huge_heap(o->a[1], o->a[2]);
             hkind[0] = (int)(p->cfg[CF_CLEARFREES] >> 4 & 1);
-            cstl_heap_init(&hp[0], cmp_prio, NULL, hoff(hkind[0]));
+            cstl_heap_init(&hp[0], cmp_prio, mh[0].ord, hoff(hkind[0]));
             continue;
         }
 
         switch (o->kind) {
         case H_PUSH:
             if (m->n >= maxn) goto do_pop;
+            if (nrecycle > 0 && (o->a[2] & 1)) {
+                /* the same element object goes back in (a popped element is the caller's again: callers re-use them) */
+                e = recycle[--nrecycle];
+                PROBE("push_recycled_element");
+            } else
             e = simheap_alloc(sizeof *e, TAG_ELEM);
             e->magic = MAGIC; e->tail = ~MAGIC; e->id = next_id++; e->heap = h; e->mark = 0;
             e->prio = (int)(o->a[1] % (uint64_t)prios);
@@ -265,17 +278,22 @@ static void h_exec(const plan_t *p)
                 PROBE("pop_empty");
                 if (ret != NULL) VIOL(h, "pop_empty", "pop on an empty heap returned non-NULL");
             } else {
-                int mx = m->e[0]->prio;
-                for (i = 1; i < m->n; i++) if (m->e[i]->prio > mx) mx = m->e[i]->prio;
+                int mx = EFF(h, m->e[0]);
+                for (i = 1; i < m->n; i++) if (EFF(h, m->e[i]) > mx) mx = EFF(h, m->e[i]);
                 for (i = 0; i < m->n; i++) if (m->e[i] == ret) break;
                 if (ret == NULL) VIOL(h, "pop_null", "pop returned NULL on a heap of %d", m->n);
                 if (i == m->n) VIOL(h, "pop_foreign", "pop returned a pointer that is not a held element");
                 e = m->e[i];
-                if (e->prio != mx) VIOL(h, "pop_max", "pop returned priority %d, maximum is %d", e->prio, mx);
+                if (EFF(h, e) != mx) VIOL(h, "pop_max", "pop returned priority %d, the %s is %d", e->prio, m->ord->dir > 0 ? "maximum" : "minimum (this heap orders the other way round)", mx * m->ord->dir);
                 if ((m->n & (m->n - 1)) == 0) PROBE("pop_from_2^k");
                 m->e[i] = m->e[--m->n];
                 EVT("pop", h, e->id, e->prio);
                 e->heap = -1;
+                if (nrecycle < 4 && (o->a[2] & 2)) {
+                    /* kept by the caller for re-use; the node members are the caller's to scribble on meanwhile */
+                    memset(&e->hn, 0xA5, sizeof e->hn); memset(&e->hn2, 0xA5, sizeof e->hn2);
+                    recycle[nrecycle++] = e;
+                } else
                 simheap_free(e);
             }
             break;
@@ -313,6 +331,7 @@ static void h_exec(const plan_t *p)
             if (nh < 2) { EVT("skip", 0, 0, 0); break; }
             TRY(cstl_heap_swap(&hp[h], &hp[u]));
             if (g_aborted) VIOL(h, "abort", "swap aborted");
+            { struct hord *to = m->ord; m->ord = mh[u].ord; mh[u].ord = to; if (m->ord->dir != mh[u].ord->dir) PROBE("swap_heaps_that_order_differently"); }
             memcpy(tmp, m->e, sizeof(m->e[0]) * (size_t)m->n); n = m->n; sc = m->since_clear;
             memcpy(m->e, mh[u].e, sizeof(m->e[0]) * (size_t)mh[u].n); m->n = mh[u].n; m->since_clear = mh[u].since_clear;
             memcpy(mh[u].e, tmp, sizeof(m->e[0]) * (size_t)n); mh[u].n = n; mh[u].since_clear = sc;
@@ -332,7 +351,7 @@ static void h_exec(const plan_t *p)
         if (o->kind != H_CLEAR) tick(h);
         if ((k & 31) == 31 || k == p->nops - 1) simheap_audit(prop_of(h), "heap");
     }
-    if (simheap_live_count(TAG_ELEM) != (unsigned)(mh[0].n + mh[1].n)) sim_harness_bug("heap: element accounting broken");
+    if (simheap_live_count(TAG_ELEM) != (unsigned)(mh[0].n + mh[1].n + nrecycle)) sim_harness_bug("heap: element accounting broken");
     if (simheap_live_count(TAG_LIB) != 0) sim_violation("C07/heap/unexpected_alloc", "heap code allocated memory");
     g_run.nontrivial = maxreach >= 3;
 }
@@ -356,13 +375,14 @@ static void h_gen(prng_t *r, int mode, plan_t *p)
     p->cfg[CF_PRIOS] = small ? 1 + prng_below(r, 3) : 1 + prng_below(r, 40);
     p->cfg[CF_JUNK] = 1 + prng_below(r, 254);
     p->cfg[CF_MAXN] = longrun ? 200 + prng_below(r, 850) : small ? 2 + prng_below(r, 6) : 4 + prng_below(r, 60);
-    p->cfg[CF_CLEARFREES] = (mode == 15 ? 1 : prng_below(r, 2)) | (prng_chance(r, 1, 3) ? prng_below(r, 4) << 4 : 0);
+    p->cfg[CF_CLEARFREES] = (mode == 15 ? 1 : prng_below(r, 2)) | (prng_chance(r, 1, 3) ? prng_below(r, 4) << 4 : 0) | (prng_chance(r, 1, 2) ? prng_below(r, 4) << 8 : 0);
     for (i = 0; i < nops; i++) {
         unsigned x = (unsigned)prng_below(r, 100 + w_clear);
         int kind = x < push_w ? H_PUSH : x < 90 ? H_POP : x < 94 ? H_GET : x < 100 ? H_SWAP : H_CLEAR;
         op_t *o = plan_add(p, kind);
         o->a[0] = prng_below(r, 2);
         o->a[1] = prng_below(r, 4096);
+        o->a[2] = prng_below(r, 4);           /* bit 0: push a recycled element if there is one; bit 1: keep the popped element for re-use */
         if (kind == H_CLEAR && prng_chance(r, 3, 4)) {
             int j, nf = 1 + (int)prng_below(r, 5);
             for (j = 0; j < nf; j++) { op_t *q = plan_add(p, H_PUSH); q->a[0] = o->a[0]; q->a[1] = prng_below(r, 4096); }
